@@ -3,7 +3,11 @@
 import json, sys
 pid, wt = sys.argv[1], sys.argv[2]
 # optional: "fileA;fileB" - the file each of the two changes has to be made in (files the property is anchored in), to spread the changes over the code base
-where = sys.argv[3].split(";") if len(sys.argv) > 3 else None
+where = sys.argv[3].split(";") if len(sys.argv) > 3 and sys.argv[3] else None
+# optional: the KIND of trigger both changes must need ("history" / "boundary"), to spread the changes over kinds of slips
+kind = sys.argv[4] if len(sys.argv) > 4 else None
+KINDS = {"history": "Both changes must be of the kind that needs HISTORY to manifest: state shared between objects or calls (caches, class-level or module-level data, aliased arrays or lists, a missed copy), so that the first use in a fresh process is right and only a later use - after other objects were created, other strings parsed, other calls made - is wrong.",
+         "boundary": "Both changes must be of the kind that needs a BOUNDARY or unusual-but-legal VALUE to manifest: zero, exactly equal values, very small / very large numbers, an unusual number format, the first or last position of a list, a count of exactly one, sizes just past a limit - ordinary mid-range inputs must behave exactly as before."}
 p = [json.loads(l) for l in open('/verif/properties.jsonl') if json.loads(l)['id'] == pid][0]
 print(f"""You are helping to evaluate a verification framework by writing realistic buggy variants ("seeded changes") of an open-source Python library. Work ONLY inside the scratch git worktree {wt} (a checkout of the library G-BigSMILES: Python parser and stochastic generator for a polymer line notation; sources in {wt}/src/gbigsmiles, docs in {wt}/README.md and {wt}/SI.md, tests in {wt}/tests). Do NOT read or touch /repo or /verif, do not use git commit, and do NOT use git stash (the stash is shared with other worktrees of the same repository; save a change with `git diff > x.patch`, undo it with `git checkout -- .`, re-apply it with `git apply x.patch`).
 
@@ -26,7 +30,7 @@ Your task: produce TWO different, independent changes to the library source (src
   (c) is realistic - the kind of slip a maintainer could make in a refactoring, optimisation or feature commit (wrong index, off-by-one, >= for >, missed deep copy, cache keyed wrongly, swapped arguments, removed or weakened guard, a condition that is right for the common case only ...), not sabotage that prints or special-cases an input,
   (d) needs something SPECIFIC to manifest: a particular sequence of random choices, an unusual but legal input shape (branching, several end groups, zero or unequal weights, ids, a particular distribution parameter region, a particular order of API calls, two code sites that each look fine alone) - NOT something that ordinary use or the first call would expose at once. Prefer subtle ones.
 The two changes should touch different mechanisms / clauses of the property.
-{("Change 1 has to be made in src/gbigsmiles/" + where[0] + " and change 2 in src/gbigsmiles/" + where[1] + " (other files may be touched too if the change needs it, but the slip itself sits in the named file). If you find after a serious attempt that no such change can break the property and still pass the suite, say so and use another file the property is anchored in.") if where else ""}
+{(KINDS[kind] + chr(10)) if kind else ""}{("Change 1 has to be made in src/gbigsmiles/" + where[0] + " and change 2 in src/gbigsmiles/" + where[1] + " (other files may be touched too if the change needs it, but the slip itself sits in the named file). If you find after a serious attempt that no such change can break the property and still pass the suite, say so and use another file the property is anchored in.") if where else ""}
 
 For each change i in (1, 2) deliver, in {wt}:
   - mutant<i>.patch : output of `git diff` for that change alone (relative to the unchanged tree; apply-able with `git apply`),
